@@ -166,7 +166,7 @@ def run(ctx):
                 idx = ig.rarg(call_node, 0)
             else:
                 # create_block result assigned to blocks[i]
-                for n_ in ig.ev_nodes(lambda n_: n_.ev["e"] == "asg" and n_.frame.id == 0):
+                for n_ in ig.ev_nodes(lambda n_: n_.ev["e"] == "asg" and n_.frame.owner_id == 0):
                     rhs = strip_cast(n_.ev.get("rhs"))
                     if isinstance(rhs, dict) and rhs.get("k") == "e" and rhs.get("id") == ev["id"]:
                         idx = ig.resolve(n_.ev["lhs"], n_.frame)
